@@ -41,7 +41,8 @@ def model(prog):
     def frame_of(op, path):
         fr = {}
         for i, sv in enumerate(op.get("state", [])):
-            fr.setdefault(sv["type"], []).append((path, "s", i))
+            lbl = ("shared", sv["type"], sv["v"], sv["share"]) if sv.get("share") is not None else (path, "s", i)
+            fr.setdefault(sv["type"], []).append(lbl)
         for j, d in enumerate(op.get("disp") or []):
             y = d.get("yields")
             ys = [] if y is None else ([y] if isinstance(y, dict) else y)
@@ -173,6 +174,9 @@ def run_case(case) -> Outcome:
             seen_types.add(name)
     if any(e["ev"] == "prepared" for e in run.log):
         classes.add("prepared-scope")
+    shared_uses = [tuple(sorted(sv.items())) for _, op in P.walk_blocks(case["body"]) for sv in op.get("state", []) if sv.get("share") is not None]
+    if len(shared_uses) != len(set(shared_uses)):
+        classes.add("one-instance-supplied-by-several-blocks")
     # which of several same-type values of ONE block wins is not specified - but it has to be a function of the program,
     # not of how long each disposable takes to enter: re-run with other enter latencies and compare the winners
     if not out.violations and _duplicates_across_disposables(case["body"]):
@@ -197,7 +201,9 @@ def strategy(tier):
         st.tuples(st.sampled_from(list(P.FAMILY)), st.booleans()).map(list), min_size=1, max_size=4
     )
     probe = st.builds(lambda lk: {"k": "probe", "lookups": lk}, lookups)
-    svs = st.lists(P.sv_strategy(), min_size=0, max_size=4)
+    # some values are ONE shared instance (a constant such as a default configuration) supplied by several blocks
+    shared_sv = st.builds(lambda t, v: {"type": t, "v": v, "share": 0}, st.sampled_from(["A", "B", "R"]), st.sampled_from([1, 2]))
+    svs = st.lists(st.one_of(P.sv_strategy(), P.sv_strategy(), P.sv_strategy(), shared_sv), min_size=0, max_size=4)
     names = st.sampled_from(["s", "outer", "inner", "x"])
 
     def blocks(children):
@@ -241,7 +247,44 @@ def strategy(tier):
             node = [blk, dict(all_probe)]
         return {"body": [*node]}
 
-    return st.one_of(general, general, general, general, deep_chain())
+    @st.composite
+    def reuse(draw):
+        """sibling blocks supplying DIFFERENT values of the same types, each containing a block that supplies the SAME
+        shared instance (a constant): whatever was computed for the first sibling must not be reused for the second"""
+        outer_types = draw(st.lists(st.sampled_from(["A", "B", "R", "F", "U"]), min_size=1, max_size=2, unique=True))
+        shared = {"type": draw(st.sampled_from([t for t in ["A", "B", "R", "A2"] if t not in outer_types] or ["A2"])), "v": 5, "share": 0}
+        pr = {"k": "probe", "lookups": [[t, False] for t in [*outer_types, shared["type"]]]}
+
+        def mk(kind, state, body):
+            if kind == "updated":
+                return {"k": "updated", "state": state, "body": body}
+            return {"k": "scope", "mode": kind, "name": "r", "state": state, "disp": None, "disp_obj": False, "body": body, "prep": 0}
+
+        kinds = st.sampled_from(["updated", "updated", "sync", "async"])
+        siblings = []
+        for n in range(draw(st.integers(2, 3))):
+            inner = mk(draw(kinds), [dict(shared)], [dict(pr)])
+            siblings.append(mk(draw(kinds), [{"type": t, "v": n + 1} for t in outer_types], [dict(pr), inner, dict(pr)]))
+            siblings.append(dict(pr))
+        return {"body": [mk("async", draw(st.lists(P.sv_strategy(), max_size=1)), siblings), dict(pr)]}
+
+    @st.composite
+    def dup_disp(draw):
+        """several disposables of ONE scope (and sometimes the scope itself) supplying the same type, with different enter
+        latencies"""
+        types = draw(st.lists(st.sampled_from(["A", "B", "R"]), min_size=1, max_size=2, unique=True))
+        disp = []
+        for j in range(draw(st.integers(2, 3))):
+            beh = draw(st.sampled_from([{"b": "ok"}, {"b": "suspend_ok", "t": 0.25}, {"b": "suspend_ok", "t": 0.75}]))
+            ys = [{"type": t, "v": j + 1} for t in types if draw(st.integers(0, 3)) > 0] or [{"type": types[0], "v": j + 1}]
+            disp.append({"enter": beh, "yields": ys if len(ys) > 1 or draw(st.booleans()) else ys[0], "exit": {"b": "ok"}, "as": draw(st.sampled_from(["list", "iter", "gen"]))})
+        own = [{"type": types[0], "v": 9}] if draw(st.integers(0, 2)) == 0 else []
+        pr = {"k": "probe", "lookups": [[t, False] for t in types]}
+        inner = {"k": "updated", "state": draw(st.lists(P.sv_strategy(), max_size=1)), "body": [dict(pr)]}
+        scope = {"k": "scope", "mode": "async", "name": "d", "state": own, "disp": disp, "disp_obj": draw(st.booleans()), "body": [dict(pr), inner, dict(pr)], "prep": 0}
+        return {"body": [{"k": "scope", "mode": "async", "name": "root", "state": draw(st.lists(P.sv_strategy(), max_size=2)), "disp": None, "disp_obj": False, "body": [scope, dict(pr)], "prep": 0}, dict(pr)]}
+
+    return st.one_of(general, general, general, general, general, general, deep_chain(), reuse(), dup_disp())
 
 
 def budget(tier):
